@@ -1183,23 +1183,7 @@ def field_transport(ctx, facts, rule):
 
 
 # ---------------------------------------------------------------------------------------------
-def hash_cover(ctx, facts, rule="HASH-cover"):
-    """Every consistency check between helpers that compares hashes (shuffle verification, Fiat-Shamir challenges of the
-    multiplication proofs, proof-share hashes exchanged by the verifiers) is only as strong as the hash's coverage of
-    its input: an element that is not absorbed can be altered freely.  Honest runs cannot notice, both sides skip it."""
-    ctx.rule(f"{rule}: compute_hash_internal iterates its whole argument (into_iter of the parameter itself, loop left only when next() is None), serialises each element into the buffer and absorbs the whole buffer (Digest::update on the same hasher) on every path back to next(), and returns Hash(finalize()) of that hasher; compute_hash / compute_possibly_empty_hash return component 0 of compute_hash_internal(their whole argument), compute_hash only after the non-empty assertion; hash_to_field combines both hashes")
-    H = "helpers::hashing::"
-    b = facts.bodies.get(H + "compute_hash_internal")
-    if b is None:
-        return ctx.missing(rule, "compute_hash_internal")
-    ctx.count(bodies=1)
-    nx = [(bb, t) for bb, t in b.calls() if (F.callee(t)[0] or "").endswith("Iterator::next")]
-    it = [(bb, t) for bb, t in b.calls() if (F.callee(t)[0] or "").endswith("IntoIterator::into_iter")]
-    ser = [(bb, t) for bb, t in b.calls() if (F.callee(t)[0] or "").endswith("SerializeAs::serialize")]
-    upd = [(bb, t) for bb, t in b.calls() if re.search(r"Digest::update$|Update::update$", F.callee(t)[0] or "")]
-    fin = [(bb, t) for bb, t in b.calls() if re.search(r"Digest::finalize$", F.callee(t)[0] or "")]
-    if len(nx) != 1 or not it or not ser or not upd or len(fin) != 1:
-        return ctx.missing(rule, f"compute_hash_internal: one next / finalize and into_iter, serialize, update calls (found {len(nx)}/{len(fin)}, {len(it)}, {len(ser)}+{len(upd)})")
+def _hash_cover_loop(ctx, rule, b, nx, it, ser, upd, fin):
     N = nx[0][0]
     rets = [bb for bb in b.live_blocks() if b.term(bb)["k"] == "ret"]
     src = flow.expr_of(b, nx[0][1]["args"][0], max_depth=10)       # what the loop draws from
@@ -1235,6 +1219,73 @@ def hash_cover(ctx, facts, rule="HASH-cover"):
     ret = flow.expr_of(b, {"cp": [0]}, max_depth=8)
     okr = ret[0] == "agg" and ret[2][0][0] == "agg" and str(ret[2][0][1]).endswith("'Hash')") and ret[2][0][2][0][0] == "call" and ret[2][0][2][0][1].endswith("Digest::finalize") and ret[2][0][2][0][2][0] == ua[0]
     ctx.ob(rule, "hash:returns-finalize-of-that-hasher", okr, "Hash(sha.finalize())" if okr else "the returned hash is not the finalisation of the hasher that absorbed the elements", site_of(b, fin[0][0]))
+
+
+def _hash_cover_for_each(ctx, facts, rule, b, it, fin):
+    """the closure form of the hash loop: for_each is exhaustive over into_iter(argument); its closure serialises its own
+    parameter into a buffer and absorbs that whole buffer on every path; the hasher it captured is the one finalised"""
+    from rules.C06 import upvar_sources
+    old = flow.CLOSURE_DEFS
+    flow.CLOSURE_DEFS = True
+    try:
+        fe = flow.find_calls(b, re.compile(r"Iterator::for_each$"))
+        if len(fe) != 1:
+            return False
+        src = flow.expr_of(b, fe[0][1]["args"][0], max_depth=10)
+        ce = flow.expr_of(b, fe[0][1]["args"][1], max_depth=4)
+    finally:
+        flow.CLOSURE_DEFS = old
+    cb = facts.bodies.get(ce[1][1]) if ce[0] == "agg" and isinstance(ce[1], tuple) and ce[1][0] == "closure" else None
+    if cb is None:
+        return False
+    ser = [(bb, t) for bb, t in cb.calls() if (F.callee(t)[0] or "").endswith("SerializeAs::serialize")]
+    upd = [(bb, t) for bb, t in cb.calls() if re.search(r"Digest::update$|Update::update$", F.callee(t)[0] or "")]
+    if not ser or not upd:
+        return False
+    ctx.count(bodies=1)
+    whole = src == ("call", "std::iter::IntoIterator::into_iter", (("arg", 1),))
+    ctx.ob(rule, "hash:iterates-its-whole-argument", whole, "input.into_iter().for_each(..)" if whole else "the hash loop does not iterate the argument itself (an adaptor such as take / skip / step_by / filter leaves elements out of the hash)", site_of(b, fe[0][0]))
+    rets = [bb for bb in cb.live_blocks() if cb.term(bb)["k"] == "ret"]
+    U = {bb for bb, t in upd}
+    skip = any(r in cb.reachable(0, avoid=frozenset(U)) for r in rets) and 0 not in U
+    ctx.ob(rule, "hash:absorbs-every-element", not skip, "every element is serialised and absorbed; for_each visits all of them" if not skip else "the closure can return without the element being absorbed by the hasher", site_of(cb))
+    sa = [flow.expr_of(cb, a, max_depth=8) for a in ser[0][1]["args"]]
+    ua = [flow.expr_of(cb, a, max_depth=8) for a in upd[0][1]["args"]]
+    ups = upvar_sources(facts, b, cb.path)
+    def res(e):
+        return ups.get(e[1], e) if e[0] == "upvar" else e
+    oks = flow.strip_casts(sa[0])[:2] == ("arg", 2) and len(ser) == 1
+    okb = len(upd) == 1 and sa[1] == ua[1] and (lambda x: x[0] == "call" and x[1].endswith("Default::default"))(res(sa[1]))
+    ctx.ob(rule, "hash:element->buffer->hasher", oks and okb, "x.serialize(&mut buf); sha.update(&buf)" if oks and okb else ("the value serialised is not the element the loop fetched" if not oks else "the hasher is not fed the whole buffer the element was serialised into"), site_of(cb, upd[0][0]))
+    okd = flow.dominates(cb.dominators(), ser[0][0], upd[0][0])
+    ctx.ob(rule, "hash:serialise-before-absorb", okd, "serialize dominates update" if okd else "the buffer is absorbed before the element was serialised into it", site_of(cb, upd[0][0]))
+    ret = flow.expr_of(b, {"cp": [0]}, max_depth=8)
+    okr = ret[0] == "agg" and ret[2][0][0] == "agg" and str(ret[2][0][1]).endswith("'Hash')") and ret[2][0][2][0][0] == "call" and ret[2][0][2][0][1].endswith("Digest::finalize") and ret[2][0][2][0][2][0] == res(ua[0])
+    ctx.ob(rule, "hash:returns-finalize-of-that-hasher", okr, "Hash(sha.finalize())" if okr else "the returned hash is not the finalisation of the hasher that absorbed the elements", site_of(b, fin[0][0]))
+    return True
+
+
+def hash_cover(ctx, facts, rule="HASH-cover"):
+    """Every consistency check between helpers that compares hashes (shuffle verification, Fiat-Shamir challenges of the
+    multiplication proofs, proof-share hashes exchanged by the verifiers) is only as strong as the hash's coverage of
+    its input: an element that is not absorbed can be altered freely.  Honest runs cannot notice, both sides skip it."""
+    ctx.rule(f"{rule}: compute_hash_internal iterates its whole argument (into_iter of the parameter itself, loop left only when next() is None), serialises each element into the buffer and absorbs the whole buffer (Digest::update on the same hasher) on every path back to next(), and returns Hash(finalize()) of that hasher; compute_hash / compute_possibly_empty_hash return component 0 of compute_hash_internal(their whole argument), compute_hash only after the non-empty assertion; hash_to_field combines both hashes")
+    H = "helpers::hashing::"
+    b = facts.bodies.get(H + "compute_hash_internal")
+    if b is None:
+        return ctx.missing(rule, "compute_hash_internal")
+    ctx.count(bodies=1)
+    nx = [(bb, t) for bb, t in b.calls() if (F.callee(t)[0] or "").endswith("Iterator::next")]
+    it = [(bb, t) for bb, t in b.calls() if (F.callee(t)[0] or "").endswith("IntoIterator::into_iter")]
+    ser = [(bb, t) for bb, t in b.calls() if (F.callee(t)[0] or "").endswith("SerializeAs::serialize")]
+    upd = [(bb, t) for bb, t in b.calls() if re.search(r"Digest::update$|Update::update$", F.callee(t)[0] or "")]
+    fin = [(bb, t) for bb, t in b.calls() if re.search(r"Digest::finalize$", F.callee(t)[0] or "")]
+    if not nx and len(fin) == 1 and it and _hash_cover_for_each(ctx, facts, rule, b, it, fin):
+        pass        # `input.into_iter().for_each(|x| { serialize; update })`: judged in the closure
+    elif len(nx) != 1 or not it or not ser or not upd or len(fin) != 1:
+        return ctx.missing(rule, f"compute_hash_internal: one next / finalize and into_iter, serialize, update calls (found {len(nx)}/{len(fin)}, {len(it)}, {len(ser)}+{len(upd)})")
+    else:
+        _hash_cover_loop(ctx, rule, b, nx, it, ser, upd, fin)
     for name, need_assert in (("compute_hash", True), ("compute_possibly_empty_hash", False)):
         w = facts.bodies.get(H + name)
         if w is None:
